@@ -181,6 +181,11 @@ pub struct Cx<'a> {
     /// source file of the function (for its macros)
     pub file: String,
     pub macro_depth: usize,
+    /// every (re)binding of a variable, in order (Gallina names): used to refuse expressions whose
+    /// translation would read a stale value or lose an update (checks C-STALE, C-LOST)
+    pub assign_log: Vec<String>,
+    /// the function has the float type parameter `F` (the only accepted generic argument)
+    pub float_param: bool,
 }
 
 pub fn vname(x: &str) -> String {
@@ -211,6 +216,8 @@ impl<'a> Cx<'a> {
             tparams: HashMap::new(),
             file: String::new(),
             macro_depth: 0,
+            assign_log: vec![],
+            float_param: false,
         }
     }
 
@@ -275,7 +282,11 @@ impl<'a> Cx<'a> {
 
     pub fn mark_assigned(&mut self, x: &str) {
         let d = match self.lookup(x) {
-            Some((d, _)) => d,
+            Some((d, v)) => {
+                let cn = v.cname.clone();
+                self.assign_log.push(cn);
+                d
+            }
             None => return,
         };
         for fr in self.frames.iter_mut() {
@@ -283,6 +294,34 @@ impl<'a> Cx<'a> {
                 fr.assigned.insert(x.to_string());
             }
         }
+    }
+
+    /// C-LOST: a sub-expression whose statements are kept apart and of which only the value is
+    /// used (operand of `&&` / `||`, `debug_assert!` argument, pure closure, ..) must not assign
+    pub fn no_updates_since(&self, sp: proc_macro2::Span, mark: usize, what: &str) -> R<()> {
+        match self.assign_log.get(mark) {
+            Some(x) => err(sp, format!("{} assigns `{}`: the update would be lost in the translation", what, x)),
+            None => Ok(()),
+        }
+    }
+
+    /// C-STALE: `operands` = the terms of sibling operands in evaluation order, each with the length
+    /// of the assignment log right after it was lowered.  A term that mentions a variable which a
+    /// LATER operand rebinds would read the new value in the Gallina text, the old one in Rust.
+    pub fn no_stale_reads(&self, sp: proc_macro2::Span, operands: &[(String, usize)]) -> R<()> {
+        for (t, after) in operands {
+            if *after >= self.assign_log.len() {
+                continue;
+            }
+            let idents: std::collections::HashSet<&str> =
+                t.split(|c: char| !(c.is_alphanumeric() || c == '_' || c == '\'')).filter(|w| !w.is_empty()).collect();
+            for x in &self.assign_log[*after..] {
+                if idents.contains(x.as_str()) {
+                    return err(sp, format!("an operand reads `{}`, which a later operand of the same expression modifies (the translation would read the new value)", x));
+                }
+            }
+        }
+        Ok(())
     }
 
     /// a flexible (literal-initialised) variable is used at type `ty`: that is its type from now on
@@ -600,6 +639,10 @@ impl<'a> Cx<'a> {
             Ok(s) => s,
             Err(e) => return err(mac.span(), format!("macro `{}!`: the expansion does not parse: {}", name, e)),
         };
+        // the pre-pass does not see macro bodies: no attributes / items in the expansion
+        if let Err(e) = crate::check::check_expansion_stmts(&stmts) {
+            return err(mac.span(), format!("macro `{}!`: {}", name, e));
+        }
         // the expansion is its own scope; top-level `let`s would need macro hygiene
         for s in &stmts {
             if matches!(s, syn::Stmt::Local(_) | syn::Stmt::Item(_)) {
@@ -624,6 +667,9 @@ impl<'a> Cx<'a> {
             Some(c) => c,
             None => return err(mac.span(), "debug_assert! without condition"),
         };
+        if let Err(e) = crate::check::check_expansion_expr(cond) {
+            return err(cond.span(), format!("debug_assert!: {}", e));
+        }
         for extra in it {
             match extra {
                 syn::Expr::Lit(syn::ExprLit { lit: syn::Lit::Str(_), .. }) => {}
@@ -632,11 +678,13 @@ impl<'a> Cx<'a> {
         }
         // the condition is only evaluated in builds with debug assertions
         self.stmts.push(vec![]);
+        let mark = self.assign_log.len();
         let c = self.lower_expr(cond, Some(&Ty::Bool))?;
         let mut pre = self.stmts.pop().unwrap();
         if c.ty != Ty::Bool {
             return err(cond.span(), "debug_assert! condition is not a bool");
         }
+        self.no_updates_since(cond.span(), mark, "the condition of `debug_assert!`")?;
         let da = S::Bind("_".into(), format!("debug_assert b {}", c.t));
         if pre.is_empty() {
             self.push(da);
@@ -788,11 +836,13 @@ impl<'a> Cx<'a> {
             }
             Place::Index(x, ix) => {
                 // `x[i] = v`: the value has been evaluated, now the index, then the store
+                let after_v = self.assign_log.len();
                 let var = self.place_var(e.span(), &x)?;
                 if !matches!(var.ty, Ty::Vec | Ty::Big) || v.ty != Ty::Int(IntTy::U64) {
                     return err(e.span(), format!("indexed assignment of {} into {}", v.ty, var.ty));
                 }
                 let i = self.lower_expr(&ix, Some(&Ty::Int(IntTy::Usize)))?;
+                self.no_stale_reads(e.span(), &[(v.t.clone(), after_v)])?;
                 if i.ty != Ty::Int(IntTy::Usize) {
                     return err(e.span(), "index is not a usize");
                 }
@@ -895,8 +945,23 @@ pub fn conv_ty_in(t: &syn::Type, self_ty: &Ty, t_is_limb: bool) -> R<Ty> {
     let rec = |x: &syn::Type| conv_ty_in(x, self_ty, t_is_limb);
     match t {
         syn::Type::Path(p) if p.qself.is_none() => {
+            // the name decides: no module prefix (it could name something else), except `cmp::Ordering`
+            let segs: Vec<String> = p.path.segments.iter().map(|s| s.ident.to_string()).collect();
+            let prefix_ok = segs.len() == 1 || segs == ["cmp", "Ordering"] || segs == ["core", "cmp", "Ordering"];
+            if !prefix_ok || p.path.leading_colon.is_some() {
+                return err(t.span(), format!("unsupported type path `{}`", segs.join("::")));
+            }
+            for s in p.path.segments.iter().take(segs.len() - 1) {
+                if !s.arguments.is_none() {
+                    return err(t.span(), "generic arguments inside a type path");
+                }
+            }
             let seg = p.path.segments.last().unwrap();
             let id = seg.ident.to_string();
+            // generic arguments are only read for `Option<..>`; `ReverseView<Limb>` is checked by the driver
+            if !seg.arguments.is_none() && id != "Option" && id != "ReverseView" {
+                return err(t.span(), format!("generic arguments on the type `{}`", id));
+            }
             if let Some(i) = IntTy::from_name(&id) {
                 return Ok(Ty::Int(i));
             }
